@@ -13,7 +13,7 @@ def cdE : Expr → Nat
   | .pre _ _ _ e => cdE e + 1
   | .infix _ _ _ l r => max (cdE l) (cdE r) + 1
   | .ifE _ _ c t (some e) => max (cdE c) (max (cdB t) (cdB e)) + 1
-  | .call _ _ _ args _ => cdArgs args + args.length + 1
+  | .call _ _ _ args _ => cdArgs args + args.length + 2
   | _ => 1
 def cdB : Block → Nat
   | .mk _ _ _ (some e) => cdE e + 1
@@ -36,7 +36,7 @@ def cdX : Expr → Nat
   | .assign _ _ _ r => cdE r + 1
   | .ifE _ _ c t (some eb) => max (cdE c) (max (cdBS t) (cdBS eb)) + 1
   | .ifE _ _ c t none => max (cdE c) (cdBS t) + 1
-  | .call _ _ _ args _ => cdArgs args + args.length + 1
+  | .call _ _ _ args _ => cdArgs args + args.length + 2
   | _ => 1
 def cdSs : List Stmt → Nat
   | [] => 1
@@ -392,9 +392,9 @@ theorem compile_gexpr : ∀ (fuel : Nat),
           simp only []
           refine bind_run _ _ _ _ _ _ (getMangledFn_run_S _ _ _ _ _) ?_
           rw [hfm]
-          simp only [Bool.false_eq_true, if_false]
+          simp only []
           rw [emit_run_S]
-          simp only [Option.getD_some]
+          simp only [Option.getD_some, List.append_assoc]
     · intro b cs hok hd L c0 env hv hcalls
       obtain ⟨sp, ty, stmts, oe⟩ := b
       cases stmts with
